@@ -211,3 +211,25 @@ def negative_arguments(n):
             raised = True
         check(raised, "negative argument raises ValueError")
     check(r.position == 0, "failed calls do not move the reader")
+
+
+def long_chunks(n, lo):
+    """Size thresholds: chunks whose end lies far from their start (a scan that works in windows or blocks has
+    boundaries there).  All n bytes are symbolic; the first break is assumed at or beyond offset lo so that the
+    solver's attention goes to the long-chunk region (shorter first chunks are the step() jobs' business)."""
+    data = sym_bytes("data", n)
+    for i in range(lo):
+        assume(data[i] != 0xFF)
+    r = EoReader(data)
+    m = ModelReader(data)
+    r.chunked_reading_mode = True
+    m.set_mode(True)
+    same_state(r, m, n, "long: first chunk")
+    check(r.get_byte() == m.get_byte(), "long: first byte")
+    r.next_chunk()
+    m.next_chunk()
+    same_state(r, m, n, "long: second chunk")
+    check(r.get_byte() == m.get_byte(), "long: byte after the break")
+    r.chunked_reading_mode = False
+    m.set_mode(False)
+    same_state(r, m, n, "long: mode off")
